@@ -239,13 +239,16 @@ func (f *Frame) applyContract(c *cursor, site ssa.Instruction, callee *ssa.Funct
 	env2 := &SpecEnv{f: f, names: env.names, types: env.types, cur: c.st, old: pre}
 	bindResultNames(env2, callee, res)
 	var ens []Term
-	for _, en := range spec.Ensures {
+	for _, en := range append(append([]*Clause{}, spec.Ensures...), spec.Assumes...) {
 		t, err := env2.evalBool(en.Expr)
 		if err != nil {
 			e.fail("ensures of %s: %v", key, err)
 			continue
 		}
 		ens = append(ens, t)
+	}
+	for _, as := range spec.Assumes {
+		e.usedAssumes[key+": "+as.Text] = true
 	}
 	c.reach = e.define(f.pfx+"r.post", and(append([]Term{c.reach}, ens...)...))
 	if spec.MayPanic != "" {
